@@ -35,6 +35,8 @@ type Case struct {
 	XData      string `json:",omitempty"` // ... and payload (hex)
 	Hops, Secs int    `json:",omitempty"` // header fields the cascade does not look at
 	RespFlag   string `json:",omitempty"` // what the plugin does to the REPLY's broadcast bit: "" | "set" | "clear"
+	RespGI     string `json:",omitempty"` // what the plugin leaves in the REPLY's giaddr: "" (as handed) | "zero" | "other"
+	RespCI     string `json:",omitempty"` // ... and in the REPLY's ciaddr
 	Fresh      bool   `json:",omitempty"` // the plugin returns a newly built reply object instead of the one it was handed
 	Listen     string `json:",omitempty"` // the listener is built by the real listen4 from this listen address ("ip" or "ip%zone"); Bound is then what the spelling says
 	ReqType    int    `json:",omitempty"` // DHCP message type of the request if not DISCOVER/REQUEST (INFORM 8, DECLINE 4, RELEASE 7, ...)
@@ -120,6 +122,19 @@ func shaper(cur *Case) handler.Handler4 {
 			resp.SetBroadcast()
 		case "clear":
 			resp.SetUnicast()
+		}
+		// ... and the REQUEST's giaddr / ciaddr (a reply built from scratch carries neither)
+		switch cur.RespGI {
+		case "zero":
+			resp.GatewayIPAddr = net.IPv4zero.To4()
+		case "other":
+			resp.GatewayIPAddr = net.IPv4(10, 77, 0, 1).To4()
+		}
+		switch cur.RespCI {
+		case "zero":
+			resp.ClientIPAddr = net.IPv4zero.To4()
+		case "other":
+			resp.ClientIPAddr = net.IPv4(10, 77, 0, 2).To4()
 		}
 		if cur.Fresh {
 			// same content, another object: what is sent and where is decided by what the
@@ -287,7 +302,7 @@ func run(r *ev.Run) {
 	if r.Quick() && len(idx) > 2 {
 		idx = idx[:2]
 	}
-	r.Rule(fmt.Sprintf("E3 complete decision table through the real HandleMsg4: giaddr x ciaddr in {0,routable,link-local,broadcast} x broadcast flag x reply{OFFER,ACK,NAK by plugin} x yiaddr{0,routable,link-local} x listener{unbound, bound to each of %d interfaces} x receiving interface index x htype {1, 6, 32, 255} x option 82 variants; reference = the RFC 2131 4.1 cascade as worded in the property. UDP replies observed at WriteTo, link-level replies as the serialised Ethernet frame. Plus histories: every ordered pair of 16 representative requests (one per cascade rule x two receiving interfaces) on ONE unbound listener and of 8 on one bound listener, both replies judged. Class = cascade rule/pinned/bound/#sent/#frames.", len(idx)))
+	r.Rule(fmt.Sprintf("E3 complete decision table through the real HandleMsg4: giaddr x ciaddr in {0,routable,link-local,broadcast} x broadcast flag x reply{OFFER,ACK,NAK by plugin} x yiaddr{0,routable,link-local} x listener{unbound, bound to each of %d interfaces} x receiving interface index x htype {1, 6, 32, 255} x option 82 variants; the reply's own giaddr/ciaddr/broadcast bit as left by a plugin {as handed, zeroed, another value} (the cascade reads the REQUEST); reference = the RFC 2131 4.1 cascade as worded in the property. UDP replies observed at WriteTo, link-level replies as the serialised Ethernet frame. Plus histories: every ordered pair of 16 representative requests (one per cascade rule x two receiving interfaces) on ONE unbound listener and of 8 on one bound listener, both replies judged. Class = cascade rule/pinned/bound/#sent/#frames.", len(idx)))
 	r.Assume(fmt.Sprintf("host interfaces %v; 'unbound listener without control message' only for unpinned destinations (no defined answer otherwise, covered by C01); AF_PACKET syscalls after the frame is built are not executed", idx))
 	for _, gi := range addrs {
 		for _, ci := range addrs {
@@ -401,6 +416,29 @@ func run(r *ev.Run) {
 						for _, yi := range yis {
 							for _, bound := range []int{0, idx[0]} {
 								eval(r, Case{GI: gi, CI: ci, YI: yi, Bcast: bc, Reply: rep, Bound: bound, Oob: idx[0], HLen: 6, Fresh: true})
+							}
+						}
+					}
+				}
+			}
+		}
+	}
+	// the reply's own giaddr / ciaddr, as left by a plugin (a reply built from scratch has none)
+	if len(idx) > 0 {
+		for _, gi := range []string{"0.0.0.0", "10.1.2.3", "169.254.7.7"} {
+			for _, ci := range []string{"0.0.0.0", "10.1.2.3", "169.254.7.7"} {
+				for _, bc := range []bool{false, true} {
+					for _, rep := range []string{"OFFER", "ACK", "NAK"} {
+						for _, rg := range []string{"", "zero", "other"} {
+							for _, rc := range []string{"", "zero", "other"} {
+								if rg == "" && rc == "" {
+									continue
+								}
+								for _, fresh := range []bool{false, true} {
+									for _, bound := range []int{0, idx[0]} {
+										eval(r, Case{GI: gi, CI: ci, YI: "10.0.0.50", Bcast: bc, Reply: rep, Bound: bound, Oob: idx[0], HLen: 6, RespGI: rg, RespCI: rc, Fresh: fresh})
+									}
+								}
 							}
 						}
 					}
